@@ -1,6 +1,7 @@
 import Carquet.Proofs.RleGrammar
 /-
-The separate fast path `carquet_rle_decode_levels` (Impl.Rle.levelsLoop) on legal streams:
+The separate fast path `carquet_rle_decode_levels` on legal streams, for the loop before repair
+F58 (Impl.Rle.levelsLoopPreF58; Proofs/RleLevelsF58.lean carries it over to the repaired loop):
 it returns the first `n` values as int16, provided they are below 2^15 (where the saturating
 and the truncating conversion it mixes agree).
 -/
@@ -71,22 +72,22 @@ theorem levelsGroups_spec {w : Nat} (hw : w ≤ 32) : ∀ (g : Nat) (data rest :
     · intro h8
       exact i2 (by omega)
 
-theorem levelsLoop_complete {w : Nat} (hw : w ≤ 32) {bs : List UInt8} {xs : List Nat} (h : Runs w bs xs) :
+theorem levelsLoopPreF58_complete {w : Nat} (hw : w ≤ 32) {bs : List UInt8} {xs : List Nat} (h : Runs w bs xs) :
     ∀ (f n : Nat), bs.length < f → n ≤ xs.length → (∀ v ∈ xs.take n, v < 32768) →
-      levelsLoop w f bs n = (xs.take n).map Int.ofNat := by
+      levelsLoopPreF58 w f bs n = (xs.take n).map Int.ofNat := by
   induction h with
   | nil =>
     intro f n _ hn _
     have : n = 0 := by simpa using hn
     subst this
-    cases f <;> simp [levelsLoop]
+    cases f <;> simp [levelsLoopPreF58]
   | rle hdr cnt v rest vals hh hv _ ih =>
     intro f n hf hn hsmall
     cases f with
     | zero => omega
     | succ f =>
       by_cases hn0 : n = 0
-      · subst hn0; simp [levelsLoop]
+      · subst hn0; simp [levelsLoopPreF58]
       have hpos : 0 < hdr.length := List.length_pos_iff.mpr (isHeader_ne_nil hh)
       have hvb : (RleHybrid.leBytes (RleHybrid.valueBytes w) v).length = Rle.valueBytes w := by
         rw [spec_leBytes_eq]; exact leBytes_length _ _
@@ -94,7 +95,7 @@ theorem levelsLoop_complete {w : Nat} (hw : w ≤ 32) {bs : List UInt8} {xs : Li
           = (2 * cnt, RleHybrid.leBytes (RleHybrid.valueBytes w) v ++ rest) :=
         VarintImpl.readHeaderLevels_of_readVarintRle (read_header hh _)
       simp only [List.length_append, List.length_replicate] at hf hn
-      simp only [levelsLoop]
+      simp only [levelsLoopPreF58]
       rw [if_neg hn0, if_neg (by simp only [List.length_append]; omega), List.append_assoc, hhdr]
       simp only
       rw [if_pos (two_mul_and_one cnt), two_mul_shr]
@@ -134,7 +135,7 @@ theorem levelsLoop_complete {w : Nat} (hw : w ≤ 32) {bs : List UInt8} {xs : Li
     | zero => omega
     | succ f =>
       by_cases hn0 : n = 0
-      · subst hn0; simp [levelsLoop]
+      · subst hn0; simp [levelsLoopPreF58]
       have hpos : 0 < hdr.length := List.length_pos_iff.mpr (isHeader_ne_nil hh)
       have hhdr : Varint.readHeaderLevels (hdr ++ (data ++ rest)) = (2 * g + 1, data ++ rest) :=
         VarintImpl.readHeaderLevels_of_readVarintRle (read_header hh _)
@@ -142,7 +143,7 @@ theorem levelsLoop_complete {w : Nat} (hw : w ≤ 32) {bs : List UInt8} {xs : Li
       cases hu
       have hxl := unpackGroups_length hw g data hlen
       simp only [List.length_append] at hf hn
-      simp only [levelsLoop]
+      simp only [levelsLoopPreF58]
       rw [if_neg hn0, if_neg (by simp only [List.length_append]; omega), List.append_assoc, hhdr]
       simp only
       rw [if_neg (two_mul_add_and_one g), two_mul_add_shr]
@@ -166,12 +167,12 @@ theorem levelsLoop_complete {w : Nat} (hw : w ≤ 32) {bs : List UInt8} {xs : Li
         · have h0 : n - min n (8 * g) = 0 := by omega
           have h1 : n - 8 * g = 0 := by omega
           rw [h0, h1]
-          cases f <;> simp [levelsLoop]
+          cases f <;> simp [levelsLoopPreF58]
 
 /-- **`carquet_rle_decode_levels` on a legal stream** -/
-theorem decodeLevels_of_runs {w : Nat} (hw : w ≤ 32) {bs : List UInt8} {xs : List Nat} (h : Runs w bs xs)
+theorem decodeLevelsPreF58_of_runs {w : Nat} (hw : w ≤ 32) {bs : List UInt8} {xs : List Nat} (h : Runs w bs xs)
     (n : Nat) (hn : n ≤ xs.length) (hsmall : ∀ v ∈ xs.take n, v < 32768) :
-    decodeLevels w bs n = (xs.take n).map Int.ofNat :=
-  levelsLoop_complete hw h (bs.length + 1) n (Nat.lt_succ_self _) hn hsmall
+    decodeLevelsPreF58 w bs n = (xs.take n).map Int.ofNat :=
+  levelsLoopPreF58_complete hw h (bs.length + 1) n (Nat.lt_succ_self _) hn hsmall
 
 end Carquet.Proofs.RleLevels
